@@ -1,7 +1,6 @@
 package main
 
 import (
-	"runtime"
 	"strconv"
 	"unsafe"
 
@@ -186,7 +185,7 @@ func runPoolTask(ti int, pt *scn.PoolTask, ts *poolTaskState, stampBase uint64) 
 				return
 			}
 		case "gc":
-			runtime.GC()
+			zzsim.ForceGC()
 			if !ts.verify(ti, "after forced GC at op "+strconv.Itoa(oi)) {
 				return
 			}
